@@ -4,8 +4,14 @@ type EventFn[T any] func(data T)
 
 type Unsubscribe func()
 
+type subscriber[T any] struct {
+	id int
+	fn EventFn[T]
+}
+
 type Event[T any] struct {
-	subscribers []EventFn[T]
+	subscribers []subscriber[T]
+	nextID      int
 }
 
 func New[T any]() *Event[T] {
@@ -14,10 +20,17 @@ func New[T any]() *Event[T] {
 
 // Adds a subscriber to the event.
 func (e *Event[T]) Subscribe(fn EventFn[T]) Unsubscribe {
-	index := len(e.subscribers)
-	e.subscribers = append(e.subscribers, fn)
+	id := e.nextID
+	e.nextID++
+	e.subscribers = append(e.subscribers, subscriber[T]{id: id, fn: fn})
 	return func() {
-		e.subscribers = append(e.subscribers[:index], e.subscribers[index+1:]...)
+		// Remove by identity: indices shift when earlier subscribers unsubscribe
+		for i, s := range e.subscribers {
+			if s.id == id {
+				e.subscribers = append(e.subscribers[:i], e.subscribers[i+1:]...)
+				return
+			}
+		}
 	}
 }
 
@@ -26,6 +39,6 @@ func (e *Event[T]) Subscribe(fn EventFn[T]) Unsubscribe {
 // so be aware of potential race conditions.
 func (e *Event[T]) Fire(data T) {
 	for _, subscriber := range e.subscribers {
-		go subscriber(data)
+		go subscriber.fn(data)
 	}
 }
